@@ -4,11 +4,13 @@ import (
 	"context"
 	"errors"
 	"fmt"
+	"os"
 	"sort"
 	"strings"
 	"time"
 
 	"github.com/cloudwego/hertz/pkg/app/client"
+	"github.com/cloudwego/hertz/pkg/common/config"
 	errs "github.com/cloudwego/hertz/pkg/common/errors"
 	"github.com/cloudwego/hertz/pkg/common/verifhook"
 	"github.com/cloudwego/hertz/pkg/protocol"
@@ -31,12 +33,24 @@ func runC10AppClient(ep *core.Episode) {
 	maxPer := 1 + tp.Choose("permax", 2)
 	idleDur := tp.PickDur("idledur", 100*time.Millisecond, 2*time.Second, 12*time.Second)
 	waitT := tp.PickDur("wait", 0, 50*time.Millisecond, 15*time.Second)
-	cli, err := client.NewClient(client.WithDialer(dialer), client.WithMaxConnsPerHost(maxPer), client.WithMaxIdleConnDuration(idleDur), client.WithMaxConnWaitTimeout(waitT))
+	// 2, 3: as 0, 1 (one or two hosts), and a HostClientConfigHook that takes its time. hertz runs that hook under the
+	// client-wide mutex, so the scheduler may only park it when client.go was built with rewritten lock statements.
+	nhk := tp.Choose("nhosts", 4)
+	cfgHook := nhk >= 2 && os.Getenv("VSIM_AST") == "1"
+	copts := []config.ClientOption{client.WithDialer(dialer), client.WithMaxConnsPerHost(maxPer), client.WithMaxIdleConnDuration(idleDur), client.WithMaxConnWaitTimeout(waitT)}
+	if cfgHook {
+		copts = append(copts, client.WithHostClientConfigHook(func(hc interface{}) error {
+			ep.Probe("config-hook")
+			S.Yield("config-hook")
+			return nil
+		}))
+	}
+	cli, err := client.NewClient(copts...)
 	if err != nil {
 		ep.Infra = "client.NewClient: " + err.Error()
 		return
 	}
-	hosts := []string{"a.test", "b.test"}[:1+tp.Choose("nhosts", 2)]
+	hosts := []string{"a.test", "b.test"}[:1+nhk%2]
 	ep.Logf("config: maxConnsPerHost=%d idle=%v wait=%v hosts=%v", maxPer, idleDur, waitT, hosts)
 
 	// the call a task is in gives its connection up at these yield sites (inside Do, before it returns)
